@@ -526,7 +526,7 @@ func printTerm(sb *strings.Builder, t *Term, named map[int]bool) {
 		sb.WriteString(quoteSym(t.name))
 	case "bvar":
 		sb.WriteString(quoteSym(t.name))
-	case "lit":
+	case "lit", "raw":
 		sb.WriteString(t.name)
 	case "constarr":
 		fmt.Fprintf(sb, "((as const %s) ", t.sort)
@@ -626,6 +626,10 @@ func Script(prelude *Prelude, asserts []*Term, getValues []*Term) string {
 		switch t.op {
 		case "app":
 			usedFns[t.name] = true
+		case "raw":
+			for _, tok := range sexpTokens(t.name) {
+				usedFns[tok] = true
+			}
 		case "const":
 			consts = append(consts, t)
 		}
